@@ -263,6 +263,23 @@ example : compile (1 : Rat) (evQr fun _ => 0) 1 ⟨[1/4], [1], []⟩ 7 [⟨.GLOB
     compile (1 : Rat) (evQr fun _ => 0) 1 ⟨[1/4], [1], []⟩ (-3) [⟨.GLOBALPHASE, [], [], .pi8 2⟩] :=
   (load_ignores_history (1 : Rat) _ false 1 _ 7 (-3) 0 0 _).1
 
+/-- **refused_load_keeps_state.**  The contract behind the refused-load steps of the histories: the state of the model's
+processor after a load (`afterLoad`: instruction list and reported phase) is that of the load if it succeeds and EXACTLY the
+previous state if the load is refused - whatever the reason (`err`), the compiler object or the schedule mode; and a later
+successful load does not see the refused one (`load_ignores_history`).  The implementation is compared against this after
+every refused step: pulses and reported phase bit-exact as before the call, propagator x phase = unitary of the circuit
+loaded last. -/
+theorem refused_load_keeps_state {σ ε : Type} (prev : σ) (r : Except ε σ) :
+    (∀ e, r = .error e → afterLoad prev r = prev) ∧ (∀ x, r = .ok x → afterLoad prev r = x) := by
+  constructor
+  · rintro e rfl; rfl
+  · rintro x rfl; rfl
+
+example : afterLoad ([(1 : Rat)], (1 / 4 : Rat))
+    (load (1 : Rat) (evQr fun _ => 0) false 2 ⟨[1/4, 1/4], [1, 1], [1/10]⟩ 0 [⟨.BERKELEY, [0, 1], [], {}⟩] |>.map
+      fun p => (p.1.map (·.dur), p.2)) = ([1], 1 / 4) := by
+  decide +kernel
+
 /-! ## end to end -/
 
 /-- **end_to_end_partial.**  For every chain length `N`, both topologies, every valuation `ρ` of the angles, every
